@@ -217,7 +217,7 @@ PROPS = {
         ],
         "units": [
             regress("C12"),
-            {"run": "^TestC12$", "quick": 800, "thorough": 5000, "race": True},
+            {"run": "^TestC12$", "quick": 600, "thorough": 5000, "race": True},
         ],
     },
     "C13": {
